@@ -6,6 +6,7 @@ import (
 	"go/constant"
 	"go/token"
 	"go/types"
+	"os"
 	"regexp"
 	"sort"
 	"strconv"
@@ -77,12 +78,13 @@ type decCol struct {
 	ranged      bool
 	dest        string
 	pos         token.Pos
+	call        *ssa.Call
 }
 
 func c19(p *core.Program, r *core.Report) {
 	const rel = "encoding/igc"
 	efd, epkg := p.DeclOf(rel, "(*Encoder).Encode")
-	bfd, bpkg := p.DeclOf(rel, "(*parser).parseB")
+	bfd, _ := p.DeclOf(rel, "(*parser).parseB")
 	hfd, hpkg := p.DeclOf(rel, "(*parser).parseH")
 	const r1 = "record-columns"
 	r.Rule(r1, "the fixed-width columns implied by the encoder's B-record format string (zero-padded %0Nd verbs, one-character %s, literals) equal, field by field, the [start,stop) constants the decoder passes to parseDec/parseDecInRange and the character positions it switches on; the total width equals the decoder's initial B-record length; HFDTE's three two-digit fields are (Day, Month, Year%100) in the encoder and (day, month, year) at columns 0-2, 2-4, 4-6 in the decoder", 12)
@@ -124,7 +126,11 @@ func c19(p *core.Program, r *core.Report) {
 		return
 	}
 	// ---- decoder columns of parseB
-	decCols := parseCalls(p, bpkg, bfd, "line")
+	bfn := mustFn(p, r, r1, rel, "(*parser).parseB")
+	if bfn == nil {
+		return
+	}
+	decCols, charCols := igcColumns(bfn)
 	sort.Slice(decCols, func(i, j int) bool { return decCols[i].start < decCols[j].start })
 	var numeric []fmtField
 	for _, f := range bFields {
@@ -153,17 +159,6 @@ func c19(p *core.Program, r *core.Report) {
 		r.Bad(r1, rel+".B/field-count", p.Pos(bfd.Pos()), fmt.Sprintf("encoder writes %d numeric fields, decoder parses %d constant columns", len(numeric), len(constCols)))
 	}
 	// hemisphere characters
-	var charCols []int64
-	ast.Inspect(bfd.Body, func(n ast.Node) bool {
-		ie, ok := n.(*ast.IndexExpr)
-		if !ok || types.ExprString(ie.X) != "line" {
-			return true
-		}
-		if v, ok := eng.ConstInt64(eng.ConstOf(bpkg.TypesInfo, ie.Index)); ok {
-			charCols = append(charCols, v)
-		}
-		return true
-	})
 	sort.Slice(charCols, func(i, j int) bool { return charCols[i] < charCols[j] })
 	var sCols []int64
 	for _, f := range bFields {
@@ -186,7 +181,13 @@ func c19(p *core.Program, r *core.Report) {
 	}
 	r.Check(initLen == int64(bWidth), r1, rel+".B/width", p.Pos(efd.Pos()), true, fmt.Sprintf("B record is %d columns on both sides", bWidth), fmt.Sprintf("encoder's B record is %d columns wide, the decoder requires %d", bWidth, initLen))
 	// HFDTE
-	hCols := parseCalls(p, hpkg, hfd, "header.Value")
+	var hCols []decCol
+	if hfn := mustFn(p, r, r1, rel, "(*parser).parseH"); hfn != nil {
+		hCols, _ = igcColumns(hfn)
+		for i := range hCols {
+			hCols[i].dest = dateFieldOf(hfn, hCols[i])
+		}
+	}
 	sort.Slice(hCols, func(i, j int) bool { return hCols[i].start < hCols[j].start })
 	wantH := []string{"Day", "Month", "Year"}
 	wantDest := []string{"day", "month", "year"}
@@ -225,7 +226,7 @@ func c19(p *core.Program, r *core.Report) {
 		}
 		d := constCols[i]
 		as := types.ExprString(f.arg)
-		key := fmt.Sprintf("%s.B/range-%s", rel, d.dest)
+		key := fmt.Sprintf("%s.B/range[%d:%d]", rel, d.start, d.stop)
 		var max int64 = -1
 		switch {
 		case strings.HasSuffix(as, ".Hour()"):
@@ -247,7 +248,7 @@ func c19(p *core.Program, r *core.Report) {
 
 	// ---- rule 3: two-digit year window
 	const r3 = "year-window"
-	r.Rule(r3, "parseH maps the two-digit year yy to C1+yy below the pivot S and C2+yy from S on; C1, C2 are multiples of 100, C2+S = 1970 and C1+S-1 = 2069: the images of [0,S) and [S,100) are exactly 1970..2069, the window in which Year%100 is injective", 1)
+	r.Rule(r3, "CONSTEVAL: parseH evaluated with the two-digit year field bound to each yy in 0..99 stores exactly one constant into the parser's year: 2000+yy for yy < 70 and 1900+yy from 70 on - the images are exactly 1970..2069, the window in which the encoder's Year()%100 is injective", 1)
 	yearWindow(p, r, r3, hpkg, hfd)
 
 	// ---- rule 4: index discipline
@@ -349,54 +350,71 @@ func encoderMaxima(pkg *packages.Package, fd *ast.FuncDecl) map[string]int64 {
 }
 
 func yearWindow(p *core.Program, r *core.Report, rule string, pkg *packages.Package, fd *ast.FuncDecl) {
-	info := pkg.TypesInfo
-	found := false
-	ast.Inspect(fd.Body, func(n ast.Node) bool {
-		ifs, ok := n.(*ast.IfStmt)
-		if !ok || ifs.Else == nil {
-			return true
+	// CONSTEVAL: parseH evaluated with the two-digit year field (columns [4,6) of the header value) bound to yy;
+	// the constant stored into the parser's year field is read off for every yy in 0..99.
+	fn := p.SSAFunc("encoding/igc", "(*parser).parseH")
+	if fn == nil {
+		r.Lost(rule, "encoding/igc.(*parser).parseH/window", "parseH no longer resolves")
+		return
+	}
+	yearOf := func(yy int64) (int64, bool) {
+		ev := &eng.ConstEval{MaxDepth: 5}
+		ev.Inline = func(f *ssa.Function) bool { return f.Pkg == fn.Pkg }
+		ev.Override = func(f *ssa.Function, v ssa.Value, args []eng.CVal) (eng.CVal, bool) {
+			c, ok := v.(*ssa.Call)
+			if !ok {
+				return eng.CVal{}, false
+			}
+			cal := c.Call.StaticCallee()
+			if cal == nil || cal.Pkg != fn.Pkg || (cal.Name() != "parseDec" && cal.Name() != "parseDecInRange") || len(args) < 3 {
+				return eng.CVal{}, false
+			}
+			st, ok1 := args[1].Int()
+			sp, ok2 := args[2].Int()
+			if ok1 && ok2 && st == 4 && sp == 6 {
+				return eng.TupleV(eng.IntV(yy), eng.NilV()), true
+			}
+			return eng.TupleV(eng.Top, eng.NilV()), true
 		}
-		be, ok := ifs.Cond.(*ast.BinaryExpr)
-		if !ok || be.Op != token.LSS {
-			return true
-		}
-		s, okS := eng.ConstInt64(eng.ConstOf(info, be.Y))
-		yy := types.ExprString(be.X)
-		cOf := func(b *ast.BlockStmt) (int64, bool) {
-			if b == nil || len(b.List) != 1 {
-				return 0, false
+		top := ev.RunStable(fn, nil)
+		var got []eng.CVal
+		eng.WalkReached(top, func(act *eng.CEResult, in ssa.Instruction) {
+			st, ok := in.(*ssa.Store)
+			if !ok {
+				return
 			}
-			as, ok := b.List[0].(*ast.AssignStmt)
-			if !ok || !strings.HasSuffix(types.ExprString(as.Lhs[0]), ".year") {
-				return 0, false
+			fa, ok := st.Addr.(*ssa.FieldAddr)
+			if !ok {
+				return
 			}
-			sum, ok := as.Rhs[0].(*ast.BinaryExpr)
-			if !ok || sum.Op != token.ADD {
-				return 0, false
+			stt, ok := fa.X.Type().Underlying().(*types.Pointer).Elem().Underlying().(*types.Struct)
+			if !ok || stt.Field(fa.Field).Name() != "year" {
+				return
 			}
-			if types.ExprString(sum.Y) == yy {
-				return eng.ConstInt64(eng.ConstOf(info, sum.X))
-			}
-			if types.ExprString(sum.X) == yy {
-				return eng.ConstInt64(eng.ConstOf(info, sum.Y))
-			}
+			got = append(got, act.Of(st.Val))
+		})
+		if len(got) != 1 {
 			return 0, false
 		}
-		eb, _ := ifs.Else.(*ast.BlockStmt)
-		c1, ok1 := cOf(ifs.Body)
-		c2, ok2 := cOf(eb)
-		if !okS || !ok1 || !ok2 {
-			return true
-		}
-		found = true
-		good := c1%100 == 0 && c2%100 == 0 && c2+s == 1970 && c1+s-1 == 2069
-		r.Check(good, rule, "encoding/igc.(*parser).parseH/window", p.Pos(ifs.Pos()), true, fmt.Sprintf("yy < %d -> %d+yy, else %d+yy: exactly 1970..2069", s, c1, c2),
-			fmt.Sprintf("yy < %d -> %d+yy, else %d+yy maps the two-digit years onto %d..%d and %d..%d, not onto 1970..2069: dates the encoder writes come back in another century", s, c1, c2, c1, c1+s-1, c2+s, c2+99))
-		return true
-	})
-	if !found {
-		r.Lost(rule, "encoding/igc.(*parser).parseH/window", "no `if yy < S { year = C1+yy } else { year = C2+yy }` in parseH")
+		return got[0].Int()
 	}
+	bad := ""
+	for yy := int64(0); yy < 100; yy++ {
+		y, ok := yearOf(yy)
+		want := 2000 + yy
+		if yy >= 70 {
+			want = 1900 + yy
+		}
+		if !ok {
+			bad = fmt.Sprintf("the year stored for the two-digit year %02d is not a constant of it", yy)
+			break
+		}
+		if y != want {
+			bad = fmt.Sprintf("the two-digit year %02d is decoded as %d; the encoder writes Year()%%100 for 1970..2069, so it must come back as %d: dates come back in another century", yy, y, want)
+			break
+		}
+	}
+	r.Check(bad == "", rule, "encoding/igc.(*parser).parseH/window", p.Pos(fn.Pos()), true, "yy 00..69 -> 2000+yy, 70..99 -> 1900+yy: exactly 1970..2069", bad)
 }
 
 func igcIndexGuards(p *core.Program, r *core.Report, rule string, initLen int64) {
@@ -758,4 +776,103 @@ func igcIndexGuards(p *core.Program, r *core.Report, rule string, initLen int64)
 		}
 		r.Check(bad == "" && nIdx >= 2, rule, rel+".doParse/nonempty-line", p.Pos(dp.Pos()), true, "line[0] and parseLine are behind the len(line) == 0 case", bad)
 	}
+}
+
+// igcColumns evaluates a record parser with CONSTEVAL (helpers of the package evaluated as part of it) and returns
+// the constant [start,stop) columns - with their accepted range - handed to parseDec / parseDecInRange, and the
+// constant character positions the record is indexed at. The parse calls themselves are bound to "no error" so that
+// everything behind their error tests is reached.
+func igcColumns(fn *ssa.Function) (cols []decCol, chars []int64) {
+	type key struct{ start, stop int64 }
+	seen := map[key]bool{}
+	ev := &eng.ConstEval{MaxDepth: 5}
+	ev.Inline = func(f *ssa.Function) bool { return f.Pkg == fn.Pkg }
+	ev.Override = func(f *ssa.Function, v ssa.Value, args []eng.CVal) (eng.CVal, bool) {
+		c, ok := v.(*ssa.Call)
+		if !ok {
+			return eng.CVal{}, false
+		}
+		cal := c.Call.StaticCallee()
+		if cal == nil || cal.Pkg != fn.Pkg || (cal.Name() != "parseDec" && cal.Name() != "parseDecInRange") || len(args) < 3 {
+			return eng.CVal{}, false
+		}
+		st, ok1 := args[1].Int()
+		sp, ok2 := args[2].Int()
+		if ok1 && ok2 && !seen[key{st, sp}] {
+			seen[key{st, sp}] = true
+			d := decCol{start: st, stop: sp, pos: c.Pos(), dest: fmt.Sprintf("columns [%d,%d)", st, sp), call: c}
+			if cal.Name() == "parseDecInRange" && len(args) == 5 {
+				mn, okm := args[3].Int()
+				mx, okx := args[4].Int()
+				if okm && okx {
+					d.min, d.max, d.ranged = mn, mx, true
+				}
+			}
+			cols = append(cols, d)
+		}
+		return eng.TupleV(eng.Top, eng.NilV()), true
+	}
+	top := ev.Run(fn, nil)
+	if os.Getenv("VERIF_DEBUG") != "" {
+		n := 0
+		for _, b := range fn.Blocks {
+			if top.Reach[b] {
+				n++
+			} else {
+				fmt.Println("UNREACHED", fn.Name(), b.Index, b.Comment)
+			}
+		}
+		fmt.Println("igcColumns", fn.Name(), "reached", n, "of", len(fn.Blocks))
+	}
+	seenC := map[int64]bool{}
+	eng.WalkReached(top, func(act *eng.CEResult, in ssa.Instruction) {
+		lk, ok := in.(*ssa.Index) // string indexing (x/tools >= v0.20 uses Index, not Lookup, for strings)
+		if !ok {
+			return
+		}
+		if b, isB := lk.X.Type().Underlying().(*types.Basic); !isB || b.Info()&types.IsString == 0 {
+			return
+		}
+		if k, isK := act.Of(lk.Index).Int(); isK && !seenC[k] {
+			seenC[k] = true
+			chars = append(chars, k)
+		}
+	})
+	return cols, chars
+}
+
+// dateFieldOf names the parser field (day, month, year) the value parsed from the column finally reaches.
+func dateFieldOf(fn *ssa.Function, d decCol) string {
+	if d.call == nil {
+		return ""
+	}
+	seen := map[ssa.Value]bool{}
+	var walk func(v ssa.Value, depth int) string
+	walk = func(v ssa.Value, depth int) string {
+		if seen[v] || depth > 8 {
+			return ""
+		}
+		seen[v] = true
+		for _, rf := range eng.Referrers(v) {
+			switch x := rf.(type) {
+			case *ssa.Store:
+				if fa, ok := x.Addr.(*ssa.FieldAddr); ok && x.Val == v {
+					st := fa.X.Type().Underlying().(*types.Pointer).Elem().Underlying().(*types.Struct)
+					return st.Field(fa.Field).Name()
+				}
+			case ssa.Value:
+				switch x.(type) {
+				case *ssa.Extract, *ssa.Phi, *ssa.BinOp, *ssa.Convert:
+					if ex, isEx := x.(*ssa.Extract); isEx && ex.Index != 0 {
+						continue
+					}
+					if n := walk(x, depth+1); n != "" {
+						return n
+					}
+				}
+			}
+		}
+		return ""
+	}
+	return walk(d.call, 0)
 }
